@@ -31,6 +31,7 @@
 From Coq Require Import ZArith List Bool.
 From FT Require Import Base.Dict Model.Edit Model.EditExec Model.Toggle Model.ToggleExec
   Proofs.EditInv Proofs.EditSeg Proofs.EditFresh Proofs.ToggleProofs Proofs.ToggleExample.
+From FT Require Gen.Toggle_gen Proofs.ToggleTie Proofs.ToggleTieInv Proofs.ToggleRefuted.
 Import ListNotations.
 Open Scope Z_scope.
 
@@ -199,6 +200,51 @@ Proof. exact enable_ids_lin_thm. Qed.
 (* ---------- non-vacuity ---------- *)
 (* c10_st (Proofs/ToggleExample.v): frames 1 1 / 0 0 , 2 2 / 0 0 ; nodes 1 (t = 0), 2 (t = 1), edge 1 -> 2;
    regionprops can manage pos, area, ellipse, circularity, perimeter; pos (1) and area (4) are enabled *)
+(* ---- feature switching is, in the model, the code translated on every run from the current
+        Tracks.enable_features / disable_features, AnnotatorRegistry, GraphAnnotator and the protected-key check
+        of UpdateNodeAttrs (Gen/Toggle_gen.v; translator harness/translate_toggle.py, fail closed; object
+        representation Model/PyRt4.v; the bulk compute bodies stay model functions).  repr_ok: two facts about
+        the representation (rp_act listed in rp_all order; no key registered under the other feature kind),
+        both kept by every call of the interface (C10_repr_run). ---- *)
+Theorem C10_enable_is_generated : forall st ks rc ctrk clin,
+  FT.Proofs.ToggleTie.rp_canon st -> FT.Proofs.ToggleTie.reg_typed st ->
+  FT.Gen.Toggle_gen.gen_Tracks_enable_features st ks rc ctrk clin = enable_features st ks rc ctrk clin.
+Proof. exact FT.Proofs.ToggleTie.gen_Tracks_enable_features_eq. Qed.
+
+Theorem C10_disable_is_generated : forall st ks,
+  FT.Proofs.ToggleTie.rp_canon st ->
+  FT.Gen.Toggle_gen.gen_Tracks_disable_features st ks = disable_features st ks.
+Proof. exact FT.Proofs.ToggleTie.gen_Tracks_disable_features_eq. Qed.
+
+Theorem C10_protected_check_is_generated : forall st n new,
+  FT.Gen.Toggle_gen.gen_UpdateNodeAttrs_init_check st n new =
+  (if existsb (fun kv => memz (fst kv) (protected_keys st)) new then Err EValue st else Ok tt st).
+Proof. exact FT.Proofs.ToggleTie.gen_UpdateNodeAttrs_init_check_eq. Qed.
+
+Theorem C10_generated_along_runs : forall st0 ops ks rc ctrk clin,
+  FT.Proofs.ToggleTieInv.repr_ok st0 ->
+  let st := fold_left (fun s o => fst (step2 s o)) ops st0 in
+  FT.Gen.Toggle_gen.gen_Tracks_enable_features st ks rc ctrk clin = enable_features st ks rc ctrk clin.
+Proof. exact FT.Proofs.ToggleTieInv.gen_enable_along_run. Qed.
+
+(* ---- the known finding F-10b, as a machine-checked refutation on the faithful model (Proofs/ToggleRefuted.v):
+        from a well-formed state, delete an edge, re-enable track_id (already enabled: all ids are renumbered,
+        the history is kept), undo: every call succeeds, W_trk holds after the switch and FAILS after the undo
+        (nodes 2 and 4 on one unbranched segment carry ids 2 and 4).  Without the switch the same session stays
+        well formed (F10b_sessions_boundary). ---- *)
+Theorem C10_ids_recomputed_then_undo_refuted :
+  exists (s0 s1 s2 s3 : state) (u v : Z) (ctrk clin : list (list Z)),
+    WF s0 /\ trk_act (ft s0) = true /\
+    step2 s0 (OEdit (ODelEdge u v)) = (s1, (0, [])) /\
+    step2 s1 (OEnable [KTrack] true ctrk clin) = (s2, (0, [])) /\
+    step2 s2 (OEdit OUndo) = (s3, (1, [])) /\
+    W_trk s2 /\ ~ W_trk s3 /\
+    edge s3 2 4 /\ ~ divides s3 2 /\ trk s3 2 = Some 2 /\ trk s3 4 = Some 4.
+Proof.
+  destruct FT.Proofs.ToggleRefuted.F10b_refuted as (s0 & s1 & s2 & s3 & u & v & ctrk & clin & H).
+  exists s0, s1, s2, s3, u, v, ctrk, clin. intuition.
+Qed.
+
 Example C10_ex_hyps :
   cfg_keys c10_st /\ W_reg c10_st /\ seg c10_st = Some c10_sg /\ W_seg c10_st /\ comps_disjoint [[2]; [1]].
 Proof. exact (conj c10_cfg_keys (conj c10_W_reg (conj eq_refl (conj c10_W_seg c10_disjoint)))). Qed.
@@ -275,3 +321,8 @@ Print Assumptions C10_enable_fresh_iou.
 Print Assumptions C10_enable_iou_fresh.
 Print Assumptions C10_enable_ids_trk.
 Print Assumptions C10_enable_ids_lin.
+Print Assumptions C10_enable_is_generated.
+Print Assumptions C10_disable_is_generated.
+Print Assumptions C10_protected_check_is_generated.
+Print Assumptions C10_generated_along_runs.
+Print Assumptions C10_ids_recomputed_then_undo_refuted.
